@@ -56,12 +56,14 @@ Definition allocation_bytes (n : N) : option N :=
 
 Definition sat_sub (a b : N) : N := if a <? b then 0 else a - b.     (* usize::saturating_sub *)
 
-(* alloc.rs: ManualHeap::alloc *)
+(* alloc.rs: ManualHeap::alloc (the charge is computed, with its overflow check, BEFORE the slot
+   table and the free list are touched; the new total is stored after the slot is installed) *)
 Definition mh_alloc (s : mheap) (n : N) : mheap * mres :=
   if n =? 0 then (s, RErr EInvalidSize) else
   match allocation_bytes n with
   | None => (s, RErr EInvalidSize)
   | Some b =>
+      if negb (bytes s + b <? USIZE) then (s, RErr EInvalidSize) else        (* checked_add *)
       let slot := {| sl_data := repeat VNULL (N.to_nat n); sl_freed := false |} in
       let '(al, fl, h, ok) :=
         match free_list s with
@@ -70,10 +72,7 @@ Definition mh_alloc (s : mheap) (n : N) : mheap * mres :=
         | [] => (allocs s ++ [slot], [], N.of_nat (length (allocs s)), true)
         end in
       if negb ok then (s, RPanic) else
-      (* the slot is installed and the free list popped BEFORE the checked_add *)
-      if bytes s + b <? USIZE
-      then ({| allocs := al; free_list := fl; bytes := bytes s + b |}, ROkHandle h)
-      else ({| allocs := al; free_list := fl; bytes := bytes s |}, RErr EInvalidSize)
+      ({| allocs := al; free_list := fl; bytes := bytes s + b |}, ROkHandle h)
   end.
 
 (* alloc.rs: ManualHeap::free *)
@@ -169,7 +168,9 @@ Definition dead_kind (sp : spec) (h : N) (stale : ekind) : ekind :=
 Definition spec_step (sp : spec) (o : mop) (hint : mres) : spec * mres :=
   match o with
   | MAlloc n =>
-      if (n =? 0) || (USIZE <=? n * VALUE_SIZE) then (sp, RErr EInvalidSize) else
+      (* zero size, or a total charge that does not fit a usize *)
+      if (n =? 0) || (USIZE <=? n * VALUE_SIZE) || (USIZE <=? (sm_total (live sp) + n) * VALUE_SIZE)
+      then (sp, RErr EInvalidSize) else
       match hint with
       | ROkHandle h =>
           match sm_get (live sp) h with
@@ -269,9 +270,10 @@ Definition vm_step (sf : surface) (maxh gc : N) (s : mheap) (o : vop) : mheap * 
       if (z <? 0)%Z then (s, RErr ETypeError) else vm_manual_alloc maxh gc s (Z.to_N z)
   | SOpcode, VAlloc _ => (s, RErr ETypeError)
   | SOpcode, VFree (AInt z) =>
-      if (z <? 0)%Z then (s, ROkUnit)          (* opcode 29 silently ignores a negative handle *)
+      if (z <? 0)%Z then (s, ROkUnit)          (* opcode 29 ignores a negative handle (pinned by the test suite) *)
       else mh_free s (Z.to_N z)
-  | SOpcode, VFree _ => (s, ROkUnit)           (* ... and any non-int operand *)
+  | SOpcode, VFree ANull => (s, ROkUnit)       (* free(null) is a no-op here too *)
+  | SOpcode, VFree AOther => (s, RErr ETypeError)
   | SOpcode, VLoad (AInt h) (AInt o) =>
       if (h <? 0)%Z then (s, RErr ETypeError) else
       if (o <? 0)%Z then (s, RErr ETypeError) else (s, mh_load s (Z.to_N h) (Z.to_N o))
@@ -297,7 +299,7 @@ Definition vm_silent (sf : surface) (o : vop) : bool :=
   match sf, o with
   | SBuiltin, VFree ANull => true                      (* documented: free(null) is a no-op *)
   | SOpcode, VFree (AInt z) => (z <? 0)%Z
-  | SOpcode, VFree _ => true
+  | SOpcode, VFree ANull => true
   | _, _ => false
   end.
 
